@@ -400,7 +400,7 @@ def main(argv):
         fn = check_child if rec["kind"] == "child" else check_token
         res, findings = fn(rec["scenario"], rec["meta"], rec["seed"])
         same = [f for f in findings if f["rule"] == rec["rule"]]
-        print("replay %s: %s" % (argv[1], "REPRODUCED rule=%s" % rec["rule"] if same else "not reproduced"))
+        print("replay %s: %s" % (argv[1], "REPRODUCED rule=%s%s" % (rec["rule"], common.digest_note(rec, same)) if same else "not reproduced"))
         return 1 if same else 0
     tier = common.tier()
     n = 2000 if tier == "quick" else 80000
